@@ -178,7 +178,7 @@ def prefixRule (tbl : List Rule) : Nat → PrefixFn → Bool → P Expr
       let t := (← previous).text
       let parts ← if t != "" then do emitConstant ("s" ++ t); pure (parts ++ [Expr.str t]) else pure parts
       -- the real compiler truncates the count to a byte (defect F10)
-      if parts.length > 255 then error "Cannot have more than 255 interpolation parts."
+      if parts.length > 255 then error "Cannot have more than 255 parts in an interpolated string."
       emit 2
       return .interp parts
     | .number =>
